@@ -16,6 +16,7 @@ import (
 	"os"
 	"path/filepath"
 	"strings"
+	"testing/iotest"
 
 	agetest "c2sp.org/CCTV/age"
 	"filippo.io/age"
@@ -101,7 +102,7 @@ func main() {
 		small := []int{0, 1, 47, 48, 49}
 		big := []int{C - 1, C, C + 1, 2*C + 1}
 		bigLists := map[string]bool{"X0": true, "E0": true, "R0": true, "S1": true, "X0,E0,R0": true}
-		c.Bound("%d recipient lists (all of length <=%d over {X0,X1,E0,R0,U} with a real recipient, 2 mixed, scrypt logN 1/5/10) x plaintext lengths %v (+%v for %d lists) x armor x 2 tape seeds", len(lists), maxLen, small, big, len(bigLists))
+		c.Bound("%d recipient lists (all of length <=%d over {X0,X1,E0,R0,U} with a real recipient, 2 mixed, scrypt logN 1/5/10) x plaintext lengths %v (+%v for %d lists) x armor x 2 tape seeds; single-recipient lists also with io.Copy from data+EOF and half-delivery sources", len(lists), maxLen, small, big, len(bigLists))
 		for li, l := range lists {
 			if !c.MineKey(li) {
 				continue
@@ -154,6 +155,22 @@ func main() {
 						c.DistinctOnce(ev.HashStr(id))
 						if msg, det := compareWithReference(out, armored, l, plain, tp); msg != "" {
 							c.Fail("output-differs-from-age-v1/"+strings.SplitN(msg, ":", 2)[0], id, msg, det)
+						}
+						// the same file with the plaintext handed over by io.Copy from a source that delivers its last bytes
+						// together with io.EOF, and from one that delivers half of what is asked
+						if len(l) == 1 && seed == 0 && n <= 3*C {
+							for si, wrap := range []func(io.Reader) io.Reader{iotest.DataErrReader, iotest.HalfReader} {
+								c.Eval(1)
+								tp2 := tape.New(fmt.Sprintf("c05-%d-%d", c.Seed, seed))
+								tape.Install(tp2)
+								out2, err := lab.EncryptCopy(rs, wrap(bytes.NewReader(plain)), armored)
+								tape.Restore()
+								if err != nil {
+									c.Fail("encrypt-failed", fmt.Sprintf("%s/iocopy%d", id, si), err.Error(), nil)
+								} else if msg, det := compareWithReference(out2, armored, l, plain, tp2); msg != "" {
+									c.Fail("output-differs-from-age-v1/io.Copy/"+strings.SplitN(msg, ":", 2)[0], fmt.Sprintf("%s/iocopy%d", id, si), "plaintext handed over with io.Copy: "+msg, det)
+								}
+							}
 						}
 						if c.WantSample() {
 							c.Sample(map[string]interface{}{"recipients": lname, "plaintext_len": n, "armor": armored, "tape_seed": seed, "file_sha256": sha(out)})
@@ -267,6 +284,64 @@ func main() {
 			}
 		}
 		c.Sample(map[string]interface{}{"producer": "refage", "recipients": "X0,E0", "plaintext_len": C + 1, "armor": true})
+
+		// ------------------------------------------------ passphrase files that share a salt (as files written from one
+		// random tape, or by another implementation, may) but not a work factor, opened one after the other
+		c.Part("reference-scrypt-files-same-salt")
+		c.Bound("reference-built passphrase files with one salt and passphrase and work factors {2,3,4,10}, and the same work factor under two passphrases and two salts, decrypted in every order of two and three in one process: each must decrypt")
+		if c.Shard == 0 {
+			type sf struct {
+				name string
+				pass string
+				file []byte
+			}
+			var sfs []sf
+			fk := lab.Plain(16, 31)
+			pl := []byte("same salt")
+			for _, v := range []struct {
+				pass string
+				salt int64
+				logN int
+			}{{"pw one", 1, 2}, {"pw one", 1, 3}, {"pw one", 1, 4}, {"pw one", 1, 10}, {"pw two", 1, 3}, {"pw one", 2, 3}} {
+				st, err := refage.WrapScrypt(fk, v.pass, lab.Plain(16, 40+v.salt), v.logN)
+				if err != nil {
+					panic(err)
+				}
+				sfs = append(sfs, sf{fmt.Sprintf("%s/salt%d/logN%d", v.pass, v.salt, v.logN), v.pass, refage.BuildFile(fk, []refage.Stanza{st}, lab.Plain(16, 33), pl, C)})
+			}
+			open1 := func(f sf) bool {
+				idn, err := age.NewScryptIdentity(f.pass)
+				if err != nil {
+					panic(err)
+				}
+				res := lab.DecryptBytes(f.file, false, idn)
+				return res.OK() && bytes.Equal(res.Plain, pl)
+			}
+			for i := range sfs {
+				for j := range sfs {
+					for k := -1; k < len(sfs); k++ {
+						seq := []int{i, j}
+						if k >= 0 {
+							seq = append(seq, k)
+						}
+						c.Eval(1)
+						id := fmt.Sprintf("samesalt.%v", seq)
+						c.DistinctOnce(ev.HashStr(id))
+						for step, fi := range seq {
+							if !open1(sfs[fi]) {
+								var names []string
+								for _, x := range seq[:step+1] {
+									names = append(names, sfs[x].name)
+								}
+								c.Fail("reference-file-does-not-decrypt/after-other-files", id, "a valid passphrase file is not decrypted after other files were decrypted in the same process", map[string]interface{}{"sequence": names})
+								break
+							}
+						}
+					}
+				}
+			}
+			c.Sample(map[string]interface{}{"sequence": []string{"salt1/logN2", "salt1/logN3", "salt1/logN2"}})
+		}
 
 		// ------------------------------------------------ frozen corpus
 		c.Part("frozen-corpus")
